@@ -65,15 +65,9 @@ Proof.
   { destruct (start =? cn + 1) eqn:E2; [eexists; reflexivity|]. apply N.eqb_neq in E2.
     assert (Hi : start - cn - 2 < len cached) by lia. destruct (nthN_some cached _ Hi) as [x Hx]. rewrite Hx. eexists; reflexivity. }
   destruct Hp as [r Hr]. rewrite Hr. cbn [bind]. destruct r as [c|[]]; [discriminate|].
-  assert (Hc : exists r, (if nn <? start + len hs - 1
-                          then match nthN hs (len hs - (start + len hs - 1 - nn) - 1) with
-                               | None => Panic S_FH_NEXT_CP
-                               | Some h => Ok (if ncp =? h then inr tt else inl C_HASHES_UNEXPECTED) end
-                          else Ok (inr tt)) = Ok r).
-  { destruct (nn <? start + len hs - 1) eqn:E3; [|eexists; reflexivity]. apply N.ltb_lt in E3.
-    assert (Hi : len hs - (start + len hs - 1 - nn) - 1 < len hs) by lia.
-    destruct (nthN_some hs _ Hi) as [x Hx]. rewrite Hx. eexists; reflexivity. }
-  destruct Hc as [r Hr2]. rewrite Hr2. cbn [bind]. destruct r as [c|[]]; [discriminate|].
+  destruct (start + len hs - 1 <? nn) eqn:E3; [discriminate|]. apply N.ltb_ge in E3.
+  assert (Hi : len hs - (start + len hs - 1 - nn) - 1 < len hs) by lia.
+  destruct (nthN_some hs _ Hi) as [x Hx]. rewrite Hx. cbn [bind]. destruct (ncp =? x); [|discriminate].
   destruct (len cached <? start - (cn + 1)) eqn:E4; [apply N.ltb_lt in E4; lia|].
   destruct (zip_differs _ _); discriminate.
 Qed.
@@ -128,39 +122,68 @@ Proof.
       split; [eexists; reflexivity|]. intros Hnil. rewrite Hnil in Hx. unfold nthN in Hx. destruct (N.to_nat _); discriminate.
 Qed.
 
-(* the cached list only grows at its end, never beyond the next check point, and when it reaches it the hash stored
-   there is the finalized check point *)
+Lemma nth_error_skipn' {A} : forall n (l : list A) i, nth_error (skipn n l) i = nth_error l (n + i).
+Proof. induction n as [|n IH]; intros l i; [reflexivity|]. destruct l as [|a l]; [destruct i; reflexivity|]. cbn [skipn plus nth_error]. apply IH. Qed.
+
+Lemma nth_error_firstn_lt {A} : forall n (l : list A) i, (i < n)%nat -> nth_error (firstn n l) i = nth_error l i.
+Proof.
+  induction n as [|n IH]; intros l i H; [lia|]. destruct l as [|a l]; [reflexivity|].
+  destruct i as [|i]; [reflexivity|]. cbn [firstn nth_error]. apply IH. lia.
+Qed.
+
+Lemma zip_agree : forall a b i x, zip_differs a b = false -> nth_error a i = Some x -> (i < length b)%nat -> nth_error b i = Some x.
+Proof.
+  induction a as [|u a IH]; intros b i x H Ha Hb; [destruct i; discriminate|].
+  destruct b as [|v b]; [cbn in Hb; lia|]. cbn [zip_differs] in H. destruct (u =? v) eqn:E; [|discriminate]. apply N.eqb_eq in E. subst v.
+  destruct i as [|i]; [exact Ha|]. cbn [nth_error length] in *. apply (IH b i x H Ha). lia.
+Qed.
+
+(* the cached list only grows at its end; an accepted message makes it reach the upper check point exactly, and the hash
+   stored for the check point block is the finalized check point: nothing between two check points is trusted on one
+   peer's word *)
 Theorem update_cached_extends cn nn ccp ncp cached start parent hs cached' next :
   cn < start -> start <= nn -> len cached <= nn - cn ->
   update_cached cn nn ccp ncp cached start parent hs = Ok (inr (cached', next)) ->
-  (exists ext, cached' = cached ++ ext) /\ len cached' <= nn - cn /\
+  (exists ext, cached' = cached ++ ext) /\ len cached' = nn - cn /\ nthN cached' (nn - cn - 1) = Some ncp /\
   (cached = [] -> start = cn + 1 /\ parent = ccp).
 Proof.
   intros Hs1 Hs2 Hcl. unfold update_cached.
   destruct (cn + len cached + 1 <? start) eqn:E1; [discriminate|]. apply N.ltb_ge in E1.
   assert (Hanch : cached = [] -> start = cn + 1) by (intros ->; unfold len in E1; cbn in E1; lia).
-  destruct (start =? cn + 1) eqn:E2.
-  - destruct (ccp =? parent) eqn:Ep; cbn [bind]; [|discriminate]. apply N.eqb_eq in Ep.
-    destruct (nn <? start + len hs - 1) eqn:E3.
-    + destruct (nthN hs _) as [x|]; [|discriminate]. destruct (ncp =? x); cbn [bind]; [|discriminate].
-      destruct (len cached <? start - (cn + 1)); [discriminate|]. destruct (zip_differs _ _); [discriminate|].
-      intros H. inversion H; subst. split; [eexists; reflexivity|]. split.
-      * apply N.ltb_lt in E3. apply N.eqb_eq in E2. unfold len in *. rewrite app_length. unfold dropN, takeN. rewrite !skipn_length, firstn_length. lia.
-      * intros Hc. split; [apply Hanch; exact Hc | first [reflexivity | symmetry; exact Ep]].
-    + cbn [bind]. destruct (len cached <? start - (cn + 1)); [discriminate|]. destruct (zip_differs _ _); [discriminate|].
-      intros H. inversion H; subst. split; [eexists; reflexivity|]. split.
-      * apply N.ltb_ge in E3. apply N.eqb_eq in E2. unfold len in *. rewrite app_length. unfold dropN. rewrite !skipn_length. lia.
-      * intros Hc. split; [apply Hanch; exact Hc | first [reflexivity | symmetry; exact Ep]].
-  - apply N.eqb_neq in E2. destruct (nthN cached (start - cn - 2)) as [x|] eqn:Hx; [|discriminate].
-    destruct (x =? parent); cbn [bind]; [|discriminate].
-    destruct (nn <? start + len hs - 1) eqn:E3.
-    + destruct (nthN hs _) as [y|]; [|discriminate]. destruct (ncp =? y); cbn [bind]; [|discriminate].
-      destruct (len cached <? start - (cn + 1)) eqn:E4; [discriminate|]. apply N.ltb_ge in E4. destruct (zip_differs _ _); [discriminate|].
-      intros H. inversion H; subst. split; [eexists; reflexivity|]. split.
-      * apply N.ltb_lt in E3. unfold len in *. rewrite app_length. unfold dropN, takeN. rewrite !skipn_length, firstn_length. lia.
-      * intros Hc. exfalso. apply E2. apply Hanch. exact Hc.
-    + cbn [bind]. destruct (len cached <? start - (cn + 1)) eqn:E4; [discriminate|]. apply N.ltb_ge in E4. destruct (zip_differs _ _); [discriminate|].
-      intros H. inversion H; subst. split; [eexists; reflexivity|]. split.
-      * apply N.ltb_ge in E3. unfold len in *. rewrite app_length. unfold dropN. rewrite !skipn_length. lia.
-      * intros Hc. exfalso. apply E2. apply Hanch. exact Hc.
+  assert (Hpar : forall r, (if start =? cn + 1 then Ok (if ccp =? parent then inr tt else inl C_HASHES_UNEXPECTED)
+                            else match nthN cached (start - cn - 2) with
+                                 | None => Panic S_FH_CACHED_PARENT
+                                 | Some h => Ok (if h =? parent then inr tt else inl 0) end) = Ok (inr r) ->
+                           (cached = [] -> parent = ccp)).
+  { intros r Hr Hc. specialize (Hanch Hc). apply N.eqb_eq in Hanch. rewrite Hanch in Hr.
+    destruct (ccp =? parent) eqn:Ep; [apply N.eqb_eq in Ep; symmetry; exact Ep | discriminate]. }
+  destruct (if start =? cn + 1 then _ else _) as [[c|[]]| |] eqn:Par; cbn [bind]; try discriminate.
+  specialize (Hpar tt eq_refl).
+  destruct (start + len hs - 1 <? nn) eqn:E3; [discriminate|]. apply N.ltb_ge in E3.
+  destruct (nthN hs (len hs - (start + len hs - 1 - nn) - 1)) as [x|] eqn:Hx; [|discriminate]. cbn [bind].
+  destruct (ncp =? x) eqn:Ex; [|discriminate]. apply N.eqb_eq in Ex. subst x.
+  destruct (len cached <? start - (cn + 1)) eqn:E4; [discriminate|]. apply N.ltb_ge in E4.
+  destruct (zip_differs (dropN (start - (cn + 1)) cached) hs) eqn:Z; [discriminate|].
+  intros H. inversion H; subst cached' next. clear H.
+  assert (Hidx : len hs - (start + len hs - 1 - nn) - 1 = nn - start) by lia. rewrite Hidx in Hx.
+  set (offset := start - (cn + 1)) in *. set (k := len hs - (start + len hs - 1 - nn)) in *.
+  assert (Hk : k = nn - start + 1) by (unfold k; lia).
+  assert (Hlt : len (dropN offset cached) = len cached - offset) by apply len_dropN.
+  assert (Hlf : len (dropN (len (dropN offset cached)) (takeN k hs)) = k - (len cached - offset)).
+  { rewrite len_dropN, len_takeN, Hlt; [reflexivity | lia]. }
+  split; [eexists; reflexivity|]. split; [|split; [|intros Hc; split; [apply Hanch; exact Hc | apply Hpar; exact Hc]]].
+  - unfold len in *. rewrite app_length. unfold len in Hlf. lia.
+  - (* the entry of the check point block *)
+    unfold nthN in *. destruct (N.lt_ge_cases (nn - cn - 1) (len cached)) as [Hin|Hout].
+    + (* already cached: it agrees with the message, which carries the check point there *)
+      rewrite nth_error_app1 by (unfold len in Hin; lia).
+      destruct (nth_error cached (N.to_nat (nn - cn - 1))) as [y|] eqn:Hy; [|apply nth_error_None in Hy; unfold len in Hin; lia].
+      assert (Hy' : nth_error (dropN offset cached) (N.to_nat (nn - start)) = Some y).
+      { unfold dropN. rewrite nth_error_skipn'. replace (N.to_nat offset + N.to_nat (nn - start))%nat with (N.to_nat (nn - cn - 1)) by (unfold offset; lia). exact Hy. }
+      pose proof (zip_agree _ hs _ y Z Hy') as Hz. rewrite Hz in Hx; [exact Hx|]. unfold len in *. lia.
+    + rewrite nth_error_app2 by (unfold len in Hout; lia).
+      unfold dropN, takeN. rewrite nth_error_skipn'.
+      replace (N.to_nat (len (skipn (N.to_nat offset) cached)) + (N.to_nat (nn - cn - 1) - length cached))%nat with (N.to_nat (nn - start)).
+      * rewrite nth_error_firstn_lt; [exact Hx | lia].
+      * unfold len. rewrite skipn_length. unfold len in Hout, E4. unfold offset in *. lia.
 Qed.
